@@ -6,7 +6,7 @@
     commutative ring (MathComp [comRingType]), [ROps R ...] = the model's operations instantiated with
     the ring operations, the uninterpreted ones (division, sqrt, fabs, <) arbitrary. *)
 From mathcomp Require Import all_ssreflect all_algebra.
-From LP Require Import Num C04_Model C04_State C04_Life C04_Proofs_Struct C04_Proofs_Laws C04_Proofs_Block C04_Proofs_State C04_Proofs_Life C04_Proofs_Hist C04_Proofs_Alg C04_Amb C04_Proofs_Amb C04_Proofs_Made C04_Print C04_Proofs_Print.
+From LP Require Import Num C04_Model C04_State C04_Life C04_Proofs_Struct C04_Proofs_Laws C04_Proofs_Block C04_Proofs_State C04_Proofs_Life C04_Proofs_Hist C04_Proofs_Alg C04_Amb C04_Proofs_Amb C04_Proofs_Made C04_Print C04_Proofs_Print C04_Proofs_Cache.
 Import GRing.Theory.
 Local Open Scope ring_scope.
 
@@ -364,6 +364,24 @@ Theorem C04_session_compound (steps : seq (@lstep T)) (st : @lstate T) :
 Proof. exact (conj (life_run_desugar_v Ops steps st) (@life_run_desugar_m T Ops steps st)). Qed.
 Print Assumptions C04_session_compound.
 
+(** observers are functions of the current value only (the objects carry no cache): after ANY session every live object IS the
+    fresh object built from its current entries - Vector(components) / Matrix(components) - so every observer (Norm, Trace, ...;
+    any function [obs] of the object) answers on an object with a past - observer; mutator; observer, copies taken in between -
+    what it answers on a fresh object of equal value.  This is what the `observer-cache` sessions compare on the implementation. *)
+Theorem C04_session_observers_fresh (steps : seq (@lstep T)) (st st' : @lstate T) :
+  lstate_wf st -> all (@lstep_ok T) steps -> life_run Ops st steps = Ok st' ->
+  [/\ forall j, (j < size st'.2)%N -> vec_of (vcomps (nth (mkVec 0 [::]) st'.2 j)) = nth (mkVec 0 [::]) st'.2 j,
+      forall j, (j < size st'.1)%N -> (0 < mrows (nth (mkMat 0 0 [::]) st'.1 j))%N ->
+        mat_of_entries (mcomps (nth (mkMat 0 0 [::]) st'.1 j)) = Ok (nth (mkMat 0 0 [::]) st'.1 j) &
+      forall B (obs : vec T -> B) j, (j < size st'.2)%N ->
+        obs (nth (mkVec 0 [::]) st'.2 j) = obs (vec_of (vcomps (nth (mkVec 0 [::]) st'.2 j)))].
+Proof.
+  exact (fun H1 H2 H3 => And3 (proj1 (@session_objects_fresh T Ops steps st st' H1 H2 H3))
+                              (proj2 (@session_objects_fresh T Ops steps st st' H1 H2 H3))
+                              (fun B obs j Hj => @session_observers_fresh T Ops B obs steps st st' j H1 H2 H3 Hj)).
+Qed.
+Print Assumptions C04_session_observers_fresh.
+
 (** Further algebraic laws "for every conformable shape", exact for every number type (no law of the scalars is used: the two
     sides perform the same operations on the same operands): transposition is additive and homogeneous, the trace of the
     transpose is the trace (both exit for a non-square matrix) *)
@@ -703,3 +721,99 @@ Theorem C04_examples_control_state :
   (foreign_run fenv_default (FEigenvalues :: FIntegrate :: FSample :: nil) = fenv_default).
 Proof. exact fenv_diff_instances. Qed.
 Print Assumptions C04_examples_control_state.
+
+(** * Rounding: the "to rounding" clauses as theorems (coq/C04_Proofs_Round.v).
+    "products have entries sum_k a_ik*b_kj", "dot ... coincide with the matrix product", "Norm ... agree with their definitions":
+    for doubles these hold to rounding only.  The SAME model terms are instantiated at [FOpsOf fadd fsub fmul]: real numbers
+    whose +, -, * are ANY functions satisfying the standard model of floating-point arithmetic with unit roundoff u
+    (fl(x op y) = (x op y)(1+d), |d| <= u; adding to the accumulator's initial 0.0 is exact) - hypotheses of the Section,
+    satisfied by IEEE doubles with u = 2^-53 as long as nothing underflows or overflows, by the exact arithmetic with u = 0
+    and by an arithmetic that really rounds (C04_rounding_hypotheses_satisfiable).  [lsum f l] = sum of f over the list l.
+    The S4 predicates of checks/C04.py (close_sum) use this very expression, ((1+u)^n - 1) * sum |x_i||y_i|, as their slack
+    (plus an absolute term for products that underflow, which the hypotheses here exclude). *)
+From Coq Require Import Reals.
+From LP Require Import NumR C04_Proofs_Round.
+Local Close Scope ring_scope.
+Local Open Scope R_scope.
+
+Section StandardModelOfRounding.
+Variables (fadd fsub fmul : R -> R -> R) (u : R).
+Hypothesis u_nonneg : 0 <= u.
+Hypothesis fadd_model : forall x y, exists d, Rabs d <= u /\ fadd x y = (x + y) * (1 + d).
+Hypothesis fsub_model : forall x y, exists d, Rabs d <= u /\ fsub x y = (x - y) * (1 + d).
+Hypothesis fmul_model : forall x y, exists d, Rabs d <= u /\ fmul x y = (x * y) * (1 + d).
+Hypothesis fadd_0_l : forall z, fadd 0 z = z.
+Local Notation FOps := (FOpsOf fadd fsub fmul).
+Local Notation ment := (ment FOps).
+Local Notation vent := (vent FOps).
+
+(** Vector::Dot / operator*(Vector), every dimension n:  |fl(u.v) - sum u_i v_i| <= ((1+u)^n - 1) sum |u_i||v_i|
+    (so also Vector::Norm()^2 before the square root, p = q) *)
+Theorem C04_dot_rounding_bound (p q : vec R) : vdim p = vdim q ->
+  exists d, vdot FOps p q = Ok d /\
+    Rabs (d - lsum (fun i => vent p i * vent q i) (List.seq 0 (vdim p)))
+    <= ((1 + u) ^ vdim p - 1) * lsum (fun i => Rabs (vent p i) * Rabs (vent q i)) (List.seq 0 (vdim p)).
+Proof. exact (dot_rounding_bound fadd fsub fmul u u_nonneg fadd_model fmul_model fadd_0_l p q). Qed.
+Print Assumptions C04_dot_rounding_bound.
+
+(** "products have entries sum_k a_ik*b_kj" to rounding: entry (i,j) of Product / operator* for every conformable shape
+    m x n x k; likewise the components of Matrix*Vector and Vector*Matrix *)
+Theorem C04_product_entry_rounding_bound (A B : mat R) (v : vec R) (i j : nat) :
+  (mcols A = mrows B -> (i < mrows A)%coq_nat -> (j < mcols B)%coq_nat ->
+   exists C, m_product FOps A B = Ok C /\ mrows C = mrows A /\ mcols C = mcols B /\
+     Rabs (ment C i j - lsum (fun k => ment A i k * ment B k j) (List.seq 0 (mcols A)))
+     <= ((1 + u) ^ mcols A - 1) * lsum (fun k => Rabs (ment A i k) * Rabs (ment B k j)) (List.seq 0 (mcols A))) /\
+  (vdim v = mcols A -> (i < mrows A)%coq_nat ->
+   exists w, m_product_v FOps A v = Ok w /\ vdim w = mrows A /\
+     Rabs (vent w i - lsum (fun j => ment A i j * vent v j) (List.seq 0 (mcols A)))
+     <= ((1 + u) ^ mcols A - 1) * lsum (fun j => Rabs (ment A i j) * Rabs (vent v j)) (List.seq 0 (mcols A))) /\
+  (vdim v = mrows A -> (i < mcols A)%coq_nat ->
+   exists w, v_mul_m FOps v A = Ok w /\ vdim w = mcols A /\
+     Rabs (vent w i - lsum (fun j => vent v j * ment A j i) (List.seq 0 (mrows A)))
+     <= ((1 + u) ^ mrows A - 1) * lsum (fun j => Rabs (vent v j) * Rabs (ment A j i)) (List.seq 0 (mrows A))).
+Proof.
+  exact (conj (product_entry_rounding_bound fadd fsub fmul u u_nonneg fadd_model fmul_model fadd_0_l A B i j)
+        (conj (matvec_entry_rounding_bound fadd fsub fmul u u_nonneg fadd_model fmul_model fadd_0_l A v i)
+              (vecmat_entry_rounding_bound fadd fsub fmul u u_nonneg fadd_model fmul_model fadd_0_l v A i))).
+Qed.
+Print Assumptions C04_product_entry_rounding_bound.
+
+(** "Norm ... agree with their definitions" to rounding: the accumulator of squares of Matrix::Norm() (one accumulator over all
+    rows*columns entries, row-major), before the square root *)
+Theorem C04_norm2_rounding_bound (A : mat R) :
+  let idx := List.list_prod (List.seq 0 (mrows A)) (List.seq 0 (mcols A)) in
+  Rabs (m_norm2 FOps A - lsum (fun p => ment A (fst p) (snd p) * ment A (fst p) (snd p)) idx)
+  <= ((1 + u) ^ (mrows A * mcols A)%coq_nat - 1) * lsum (fun p => Rabs (ment A (fst p) (snd p)) * Rabs (ment A (fst p) (snd p))) idx.
+Proof. exact (norm2_rounding_bound fadd fsub fmul u u_nonneg fadd_model fmul_model fadd_0_l A). Qed.
+Print Assumptions C04_norm2_rounding_bound.
+
+(** "sums and differences are element-wise": every entry of += / -= (by C04_sum_spellings_agree also of Plus / Minus /
+    operator+ / operator-) is the exact sum / difference of the two entries within one rounding, u * |a +- b| *)
+Theorem C04_sum_entry_rounding_bound (A B : mat R) (i j : nat) :
+  mrows A = mrows B -> mcols A = mcols B -> (i < mrows A)%coq_nat -> (j < mcols A)%coq_nat ->
+  (exists C, m_add_assign FOps A B = Ok C /\
+     Rabs (ment C i j - (ment A i j + ment B i j)) <= u * Rabs (ment A i j + ment B i j)) /\
+  (exists C, m_sub_assign FOps A B = Ok C /\
+     Rabs (ment C i j - (ment A i j - ment B i j)) <= u * Rabs (ment A i j - ment B i j)).
+Proof. exact (sum_entry_rounding_bound fadd fsub fmul u fadd_model fsub_model A B i j). Qed.
+Print Assumptions C04_sum_entry_rounding_bound.
+End StandardModelOfRounding.
+
+(** corollary: an exact arithmetic (u = 0) computes the exact sum *)
+Theorem C04_dot_exact_arithmetic (p q : vec R) : vdim p = vdim q ->
+  vdot (FOpsOf Rplus Rminus Rmult) p q = Ok (lsum (fun i => vent ROps p i * vent ROps q i) (List.seq 0 (vdim p))).
+Proof. exact (dot_exact p q). Qed.
+Print Assumptions C04_dot_exact_arithmetic.
+
+(** non-vacuity: the exact arithmetic satisfies the hypotheses with u = 0; an arithmetic that inflates every non-trivial
+    result by (1 + u/2) satisfies them with u = 1/4 > 0, and its dot product (1,1).(1,1) is not the exact 2 *)
+Theorem C04_rounding_hypotheses_satisfiable :
+  ((forall x y, exists d, Rabs d <= 0 /\ x + y = (x + y) * (1 + d)) /\
+   (forall x y, exists d, Rabs d <= 0 /\ x - y = (x - y) * (1 + d)) /\
+   (forall x y, exists d, Rabs d <= 0 /\ x * y = (x * y) * (1 + d)) /\ (forall z, 0 + z = z)) /\
+  ((forall x y, exists d, Rabs d <= /4 /\ infl_add (/4) x y = (x + y) * (1 + d)) /\
+   (forall x y, exists d, Rabs d <= /4 /\ infl_sub (/4) x y = (x - y) * (1 + d)) /\
+   (forall x y, exists d, Rabs d <= /4 /\ infl_mul (/4) x y = (x * y) * (1 + d)) /\ (forall z, infl_add (/4) 0 z = z) /\
+   vdot (FOpsOf (infl_add (/4)) (infl_sub (/4)) (infl_mul (/4))) (mkVec 2 (1 :: 1 :: nil)) (mkVec 2 (1 :: 1 :: nil)) <> Ok 2).
+Proof. exact rounding_hypotheses_satisfiable. Qed.
+Print Assumptions C04_rounding_hypotheses_satisfiable.
